@@ -89,41 +89,229 @@ theorem get_isSome_iff {α : Type} {t : Table α} {c : Int} : (Chain.get t c).is
     simp only [Option.isSome_some, true_iff, ids, List.mem_map]
     exact ⟨r, hr, e⟩
 
-theorem isAncFuel_eq (d : Db) (a : Int) (n : Nat) (x : Int) :
-    isAncFuel d.pl a n x = (absF d).isAncestorFuel a n x := by
-  induction n generalizing x with
-  | zero => rfl
-  | succ n ih =>
-    simp only [isAncFuel, Forest.isAncestorFuel, absF_parentOf]
-    cases get d.pl x with
-    | none => rfl
-    | some r =>
-      simp only [Option.bind_some]
-      by_cases h0 : r.key = 0
-      · simp [h0, parentOpt]
-      · have : (r.key == 0) = false := by simpa using h0
-        simp only [this, parentOpt_of_ne h0, ih]
-        rfl
+/-- The Spec's descendants of `c`, on the abstraction of the table (proof-level name). -/
+def descSet (d : Db) (c : Int) : List Int := (absF d).descendants c
 
-theorem isAnc_eq (d : Db) (a x : Int) : isAnc d.pl a x = (absF d).isAncestor a x := by
-  unfold isAnc Forest.isAncestor
-  rw [isAncFuel_eq, absF_crates, List.length_map]
-
-theorem descendantIds_eq (d : Db) (c : Int) : descendantIds d.pl c = (absF d).descendants c := by
-  unfold descendantIds Forest.descendants
-  rw [absF_crates, List.filter_map, List.map_map]
-  have : ((fun x : Forest.Crate => (absF d).isAncestor c x.id) ∘ rowCrate) = fun r => isAnc d.pl c r.id := by
-    funext r; simp [Function.comp, rowCrate, isAnc_eq]
-  rw [this]
-  rfl
-
-theorem mem_descendantIds {d : Db} {c x : Int} :
-    x ∈ descendantIds d.pl c ↔ x ∈ ids d.pl ∧ (absF d).isAncestor c x = true := by
-  unfold descendantIds
-  simp only [List.mem_map, List.mem_filter, isAnc_eq, ids]
+theorem mem_descSet {d : Db} {c x : Int} :
+    x ∈ descSet d c ↔ x ∈ ids d.pl ∧ (absF d).isAncestor c x = true := by
+  unfold descSet Forest.descendants
+  rw [absF_crates]
+  simp only [List.mem_map, List.mem_filter, ids, rowCrate]
   constructor
-  · rintro ⟨r, ⟨hr, ha⟩, rfl⟩; exact ⟨⟨r, hr, rfl⟩, ha⟩
-  · rintro ⟨⟨r, hr, rfl⟩, ha⟩; exact ⟨r, ⟨hr, ha⟩, rfl⟩
+  · rintro ⟨_, ⟨⟨r, hr, rfl⟩, ha⟩, rfl⟩; exact ⟨⟨r, hr, rfl⟩, ha⟩
+  · rintro ⟨⟨r, hr, rfl⟩, ha⟩; exact ⟨_, ⟨⟨r, hr, rfl⟩, ha⟩, rfl⟩
+
+/-! ### the recursive view `PlaylistAllChildren` computes the Spec's descendants -/
+
+theorem mem_kidsOf {t : Table Bytes} {c x : Int} : x ∈ kidsOf t c ↔ ∃ r ∈ t, r.id = x ∧ r.key = c := by
+  simp only [kidsOf, List.mem_map, List.mem_filter, beq_iff_eq]
+  constructor
+  · rintro ⟨r, ⟨hr, hk⟩, rfl⟩; exact ⟨r, hr, rfl, hk⟩
+  · rintro ⟨r, hr, rfl, hk⟩; exact ⟨r, ⟨hr, hk⟩, rfl⟩
+
+/-- "x is a row with parentListId y" is the Spec's parent link (y ≠ 0). -/
+theorem kid_iff_parent {d : Db} (hn : (ids d.pl).Nodup) {x y : Int} (hy : y ≠ 0) :
+    x ∈ kidsOf d.pl y ↔ (absF d).parentOf x = some y := by
+  rw [mem_kidsOf, absF_parentOf]
+  constructor
+  · rintro ⟨r, hr, rfl, hk⟩
+    rw [get_of_mem hn hr]
+    simp [hk, parentOpt_of_ne hy]
+  · intro h
+    cases hg : Chain.get d.pl x with
+    | none => rw [hg] at h; simp at h
+    | some r =>
+      rw [hg] at h
+      simp only [Option.bind_some] at h
+      obtain ⟨hr, hid⟩ := get_some hg
+      exact ⟨r, hr, hid, (parentOpt_eq_some.mp h).1⟩
+
+/-- In a well-formed forest an upward path visits pairwise different live crates: it is shorter than the table. -/
+theorem up_lt_length {f : Forest.Forest} (hW : Forest.Wf f) {j : Nat} {x a : Int} (hx : x ∈ f.ids)
+    (h : Forest.up f j x = some a) : j < f.crates.length := by
+  let g : Nat → Int := fun i => (Forest.up f i x).getD 0
+  have hg : ∀ i, i ≤ j → Forest.up f i x = some (g i) := by
+    intro i hi
+    obtain ⟨y, hy⟩ := Forest.up_prefix h hi
+    simp [g, hy]
+  have hinj : ∀ i i', i < i' → i' < j + 1 → g i ≠ g i' := by
+    intro i i' hlt hle e
+    have h1 := hg i (by omega)
+    have h2 := hg i' (by omega)
+    have : Forest.up f (i' - i) (g i) = some (g i) := by
+      have hadd : Forest.up f (i + (i' - i)) x = (Forest.up f i x).bind (Forest.up f (i' - i)) := Forest.up_add f i (i' - i) x
+      have e2 : i + (i' - i) = i' := by omega
+      rw [e2, h2, h1] at hadd
+      simp only [Option.bind_some] at hadd
+      rw [← hadd, e]
+    have hanc : f.isAncestor (g i) (g i) = true := (Forest.isAncestor_iff f _ _).mpr ⟨i' - i, by omega, this⟩
+    rw [hW.acyclic] at hanc
+    exact absurd hanc (by simp)
+  have hnd := nodup_map_range hinj
+  have hsub : ∀ y ∈ (List.range (j + 1)).map g, y ∈ f.ids := by
+    intro y hy
+    obtain ⟨i, hi, rfl⟩ := List.mem_map.mp hy
+    have hi' := List.mem_range.mp hi
+    cases i with
+    | zero =>
+      have := hg 0 (by omega)
+      simp only [Forest.up, Option.some.injEq] at this
+      rw [← this]; exact hx
+    | succ i =>
+      have h1 := hg i (by omega)
+      have h2 := hg (i + 1) (by omega)
+      rw [Forest.up_succ', h1] at h2
+      simp only [Option.bind_some] at h2
+      obtain ⟨c, hc, _, e2⟩ := Forest.parentOf_some h2
+      exact hW.parent_live c hc _ e2
+  have := length_le_of_nodup_subset hnd hsub
+  simp [Forest.ids] at this
+  omega
+
+/-- The level-wise recursion of the view, started with the nodes at distance `k ≥ 1` below `c`, returns the nodes at
+distances `k … k+n-1`, provided there is none at distance `k+n` (otherwise it does not terminate). -/
+theorem levels_spec {d : Db} (hW : Forest.Wf (absF d)) (c : Int) :
+    ∀ (n k : Nat) (L : List Int), 1 ≤ k → (∀ x, x ∈ L ↔ Forest.up (absF d) k x = some c) →
+      (∀ x, Forest.up (absF d) (k + n) x ≠ some c) →
+      ∃ R, levels d.pl n L = .ok R ∧ ∀ x, x ∈ R ↔ ∃ j, k ≤ j ∧ j < k + n ∧ Forest.up (absF d) j x = some c := by
+  have hn : (ids d.pl).Nodup := by rw [← absF_ids]; exact hW.ids_nodup
+  intro n
+  induction n with
+  | zero =>
+    intro k L _ hL hend
+    cases L with
+    | nil => exact ⟨[], rfl, by intro x; simp; intro j h1 h2; omega⟩
+    | cons a l =>
+      exfalso
+      exact hend a ((hL a).mp (by simp))
+  | succ n ih =>
+    intro k L hk hL hend
+    cases hLe : L with
+    | nil =>
+      refine ⟨[], by simp [levels], ?_⟩
+      intro x
+      simp only [List.not_mem_nil, false_iff, not_exists, not_and]
+      intro j h1 _ h3
+      -- a node at distance j ≥ k has an ancestor-or-self at distance k, which would be in L = []
+      have e : j = (j - k) + k := by omega
+      rw [e, Forest.up_add] at h3
+      cases hu : Forest.up (absF d) (j - k) x with
+      | none => simp [hu] at h3
+      | some y =>
+        simp only [hu, Option.bind_some] at h3
+        have := (hL y).mpr h3
+        rw [hLe] at this; simp at this
+    | cons a l =>
+      rw [← hLe]
+      have hnext : ∀ x, x ∈ L.flatMap (kidsOf d.pl) ↔ Forest.up (absF d) (k + 1) x = some c := by
+        intro x
+        simp only [List.mem_flatMap]
+        constructor
+        · rintro ⟨y, hy, hxy⟩
+          have hyc := (hL y).mp hy
+          have hy0 : y ≠ 0 := by
+            -- y has a parent chain of length k ≥ 1, so it is a live crate
+            cases k with
+            | zero => omega
+            | succ k' =>
+              simp only [Forest.up] at hyc
+              cases hp : (absF d).parentOf y with
+              | none => simp [hp] at hyc
+              | some p =>
+                have hl := Forest.live_of_parentOf hp
+                obtain ⟨cr, hcr, e⟩ := Forest.mem_ids.mp hl
+                have hpos : 0 < y := by rw [← e]; exact hW.id_pos cr hcr
+                exact Int.ne_of_gt hpos
+          have hp := (kid_iff_parent hn hy0).mp hxy
+          simp [Forest.up, hp, hyc]
+        · intro h
+          simp only [Forest.up] at h
+          cases hp : (absF d).parentOf x with
+          | none => simp [hp] at h
+          | some y =>
+            simp only [hp, Option.bind_some] at h
+            have hy := (hL y).mpr h
+            have hy0 : y ≠ 0 := by
+              obtain ⟨cr, hcr, _, e2⟩ := Forest.parentOf_some hp
+              have hl := hW.parent_live cr hcr y e2
+              obtain ⟨cy, hcy, e⟩ := Forest.mem_ids.mp hl
+              have hpos : 0 < y := by rw [← e]; exact hW.id_pos cy hcy
+              exact Int.ne_of_gt hpos
+            exact ⟨y, hy, (kid_iff_parent hn hy0).mpr hp⟩
+      obtain ⟨R', hR', hmem⟩ := ih (k + 1) (L.flatMap (kidsOf d.pl)) (by omega) hnext
+        (by intro x; have := hend x; rwa [show k + 1 + n = k + (n + 1) by omega])
+      refine ⟨L ++ R', ?_, ?_⟩
+      · have : L ≠ [] := by rw [hLe]; simp
+        cases hL' : L with
+        | nil => exact absurd hL' this
+        | cons b l' =>
+          rw [← hL']
+          show (levels d.pl (n + 1) L) = _
+          rw [hL']
+          simp only [levels]
+          rw [← hL', hR']
+          rfl
+      · intro x
+        rw [List.mem_append, hL x, hmem x]
+        constructor
+        · rintro (h | ⟨j, h1, h2, h3⟩)
+          · exact ⟨k, by omega, by omega, h⟩
+          · exact ⟨j, by omega, by omega, h3⟩
+        · rintro ⟨j, h1, h2, h3⟩
+          by_cases hjk : j = k
+          · left; rw [← hjk]; exact h3
+          · right; exact ⟨j, by omega, by omega, h3⟩
+
+/-- playlist_table::descendant_ids on a well-formed table terminates and returns exactly the Spec's descendants
+(as a set; the order within a level is SQLite's scan order). -/
+theorem descendantIds_ok {d : Db} (hW : Forest.Wf (absF d)) (c : Int) :
+    ∃ l, descendantIds d.pl c = .ok l ∧ ∀ x, x ∈ l ↔ x ∈ descSet d c := by
+  have hn : (ids d.pl).Nodup := by rw [← absF_ids]; exact hW.ids_nodup
+  unfold descendantIds
+  by_cases hc : (ids d.pl).contains c = true
+  · rw [if_pos hc]
+    have hcl : c ∈ ids d.pl := List.contains_iff_mem.mp hc
+    have hc0 : c ≠ 0 := by
+      simp only [ids, List.mem_map] at hcl
+      obtain ⟨r, hr, e⟩ := hcl
+      have := hW.id_pos (rowCrate r) (by rw [absF_crates]; exact List.mem_map.mpr ⟨r, hr, rfl⟩)
+      simp only [rowCrate] at this
+      have hpos : 0 < c := by rw [← e]; exact this
+      exact Int.ne_of_gt hpos
+    have hlen : d.pl.length = (absF d).crates.length := by rw [absF_crates, List.length_map]
+    obtain ⟨R, hR, hmem⟩ := levels_spec hW c d.pl.length 1 (kidsOf d.pl c) (by omega)
+      (by intro x; rw [kid_iff_parent hn hc0]; simp [Forest.up])
+      (by
+        intro x h
+        by_cases hx : x ∈ (absF d).ids
+        · have := up_lt_length hW hx h
+          omega
+        · have hnone : (absF d).parentOf x = none := by
+            cases hp : (absF d).parentOf x with
+            | none => rfl
+            | some p => exact absurd (Forest.live_of_parentOf hp) hx
+          rw [show 1 + d.pl.length = d.pl.length + 1 by omega] at h
+          simp [Forest.up, hnone] at h)
+    refine ⟨R, hR, ?_⟩
+    intro x
+    rw [hmem x, mem_descSet]
+    constructor
+    · rintro ⟨j, h1, _, h3⟩
+      have hanc : (absF d).isAncestor c x = true := (Forest.isAncestor_iff _ _ _).mpr ⟨j, h1, h3⟩
+      exact ⟨by rw [← absF_ids]; exact Forest.descendant_live hanc, hanc⟩
+    · rintro ⟨hx, hanc⟩
+      obtain ⟨j, h1, h3⟩ := (Forest.isAncestor_iff _ _ _).mp hanc
+      have := up_lt_length hW (by rw [absF_ids]; exact hx) h3
+      exact ⟨j, h1, by omega, h3⟩
+  · rw [if_neg hc]
+    refine ⟨[], rfl, ?_⟩
+    intro x
+    simp only [List.not_mem_nil, false_iff]
+    intro hx
+    have hanc := (mem_descSet.mp hx).2
+    have := hW.ancestor_live hanc
+    rw [absF_ids] at this
+    exact hc (List.contains_iff_mem.mpr this)
 
 theorem findId_isSome (d : Db) (k : Int) (n : Bytes) :
     (findId d k n).isSome = (absF d).nameTaken (parentOpt k) n none := by
